@@ -51,7 +51,9 @@ def main():
     if a.replay:
         return table[pid](res, random.Random(seed), tier, replay=json.load(open(a.replay)))
     # proofs
-    ob, di, problems, names = W.check_proofs(pid)
+    ob, di, problems, names = W.check_proofs(pid, recheck=(tier == 'thorough'))
+    if tier == 'thorough':
+        res.notes.append('coqchk -o re-check of the property file: %s' % ('accepted, Axioms: <none>' if not problems else 'see problems'))
     res.obligations, res.discharged, res.proof_problems, res.theorems = ob, di, problems, names
     # tie + oracle; the thorough tier repeats the exploration with fresh generator seeds (VERIF_ROUNDS, default 10)
     table[pid](res, random.Random(seed), tier)
